@@ -307,6 +307,13 @@ func (e *Engine) frameViolations(fn *ssa.Function) []frameViolation {
 						}
 					}
 				}
+				if bi, ok := x.Call.Value.(*ssa.Builtin); ok && bi.Name() == "append" && len(x.Call.Args) > 0 {
+					// append(shared[:k], ...): the spare capacity behind a resliced shared slice is the tail of
+					// the shared slice itself -- the append overwrites its elements in place
+					if reslicedShared(x.Call.Args[0], map[ssa.Value]bool{}) {
+						add(x.Pos(), "appends into the backing array of a resliced shared slice")
+					}
+				}
 				// sorting permutes its argument in place
 				if callee, ok := x.Call.Value.(*ssa.Function); ok && len(x.Call.Args) > 0 {
 					switch callee.String() {
@@ -825,6 +832,69 @@ func (e *Engine) assignFirst(prop string) ([]staticResult, []string) {
 			}
 			res = append(res, r)
 		}
+	}
+	// numbering-callers: numbering writes IDs into the IR; it belongs to the print entry points of a module and of a
+	// function (and to the parser, which validates the written numbers). Any other caller inside package ir -- a block
+	// or instruction printer, a type or operand query -- would turn a read-only observer into one that stores
+	// position-derived numbers (C14; and outside the locks of C13).
+	if pkg := e.pkgs[modPath+"/ir"]; pkg != nil {
+		numbering := map[string]bool{"(*" + modPath + "/ir.Func).AssignIDs": true, "(*" + modPath + "/ir.Module).AssignGlobalIDs": true, "(*" + modPath + "/ir.Module).AssignMetadataIDs": true}
+		allowed := map[string]bool{"(*" + modPath + "/ir.Module).WriteTo": true, "(*" + modPath + "/ir.Func).LLString": true}
+		r := staticResult{Name: "numbering-callers:ir", Func: modPath + "/ir", Kind: "assign-first", Status: "unsat",
+			Detail: "inside package ir, AssignIDs / AssignGlobalIDs / AssignMetadataIDs are called by (*Module).WriteTo and (*Func).LLString only"}
+		var problems []string
+		var fns []*ssa.Function
+		var add func(f *ssa.Function)
+		add = func(f *ssa.Function) {
+			fns = append(fns, f)
+			for _, a := range f.AnonFuncs {
+				add(a)
+			}
+		}
+		for _, mem := range pkg.Members {
+			switch m := mem.(type) {
+			case *ssa.Function:
+				add(m)
+			case *ssa.Type:
+				for _, T := range []types.Type{m.Type(), types.NewPointer(m.Type())} {
+					ms := e.prog.MethodSets.MethodSet(T)
+					for i := 0; i < ms.Len(); i++ {
+						if f := e.prog.MethodValue(ms.At(i)); f != nil && f.Pkg == pkg && f.Synthetic == "" {
+							add(f)
+						}
+					}
+				}
+			}
+		}
+		seenFn := map[*ssa.Function]bool{}
+		for _, f := range fns {
+			if seenFn[f] || f.Blocks == nil {
+				continue
+			}
+			seenFn[f] = true
+			root := f
+			for root.Parent() != nil {
+				root = root.Parent()
+			}
+			if allowed[root.String()] || numbering[root.String()] {
+				continue
+			}
+			for _, b := range f.Blocks {
+				for _, ins := range b.Instrs {
+					if ci, ok := ins.(ssa.CallInstruction); ok {
+						if g, ok := ci.Common().Value.(*ssa.Function); ok && numbering[g.String()] {
+							problems = append(problems, fmt.Sprintf("%s: %s calls %s", posOf(e, ins.Pos()), strings.Replace(root.String(), modPath+"/", "", -1), g.Name()))
+						}
+					}
+				}
+			}
+		}
+		sort.Strings(problems)
+		if len(problems) > 0 {
+			r.Status = "fail"
+			r.Detail = strings.Join(problems, "; ")
+		}
+		res = append(res, r)
 	}
 	return res, errs
 }
@@ -1952,4 +2022,42 @@ func immutableTable(g *ssa.Global) bool {
 		}
 	}
 	return true
+}
+
+
+// reslicedShared: v may be a reslicing s[i:j] of a slice that is not allocated in this activation (directly, through a
+// local variable, or through a phi).
+func reslicedShared(v ssa.Value, seen map[ssa.Value]bool) bool {
+	if seen[v] {
+		return false
+	}
+	seen[v] = true
+	switch x := v.(type) {
+	case *ssa.Slice:
+		if _, isStr := x.X.Type().Underlying().(*types.Basic); isStr {
+			return false
+		}
+		if _, isSlice := x.X.Type().Underlying().(*types.Slice); !isSlice {
+			return false // slicing an array variable: s := arr[:]
+		}
+		return !freshOrigin(x.X, map[ssa.Value]bool{})
+	case *ssa.Phi:
+		for _, e := range x.Edges {
+			if reslicedShared(e, seen) {
+				return true
+			}
+		}
+	case *ssa.UnOp:
+		if x.Op != token.MUL {
+			return false
+		}
+		if a, ok := x.X.(*ssa.Alloc); ok && a.Referrers() != nil {
+			for _, r := range *a.Referrers() {
+				if st, ok := r.(*ssa.Store); ok && st.Addr == a && reslicedShared(st.Val, seen) {
+					return true
+				}
+			}
+		}
+	}
+	return false
 }
